@@ -195,6 +195,16 @@ pub fn main(id: &str) -> ! {
         println!("NOTE: {} excluded ({}): {} [{}]", e.ty, e.why, e.detail, e.cfg);
     }
     let exhaustive = unexpected.is_empty();
+    if !unexpected.is_empty() && std::env::var_os("E3_ALLOW_EXCLUSIONS").is_none() {
+        // BUILDING.md: a tree whose generated code no longer compiles for the harness is a machinery
+        // failure, not a verdict (violations found so far were already printed above).
+        vcommon::machinery(&format!(
+            "{} shape(s) had to be left out because their generated bindings do not compile / cannot be bound by the harness (first: {} — {}); this is not a verdict on {id}",
+            unexpected.len(),
+            unexpected[0].ty,
+            unexpected[0].detail
+        ));
+    }
 
     let coverage = json!({
         "evaluations": evaluations,
